@@ -6,6 +6,7 @@ import (
 	"fmt"
 	"os"
 	"reflect"
+	"strings"
 
 	ber "github.com/go-asn1-ber/asn1-ber"
 	"github.com/go-ldap/ldap/v3"
@@ -26,7 +27,7 @@ func init() {
 			r.Cov["traces_validated_against_impl"] = m.Counts["decodes"]
 			r.Cov["evaluations"] = m.Counts["decodes"]
 			r.Cov["distinct_nontrivial"] = len(m.Outc)
-			r.Cov["rule"] = "every typed request of the field alphabets is encoded by the raw BER builder (and, for the subset go-ldap can express, by a real go-ldap client whose bytes are captured), decoded through the real (*conn).readRequest and compared field by field with the typed request; distinct_nontrivial = distinct (operation, shape class) pairs where shape class = numbers of list elements / controls / outcome"
+			r.Cov["rule"] = "every typed request of the field alphabets is encoded by the raw BER builder (and, for the subset go-ldap can express, by a real go-ldap client whose bytes are captured), decoded through the real (*conn).readRequest and compared field by field with the typed request; ordered pairs / triples of requests are decoded one after the other and every earlier message is compared again afterwards; distinct_nontrivial = distinct (operation, shape class) pairs where shape class = numbers of list elements / controls / outcome"
 			r.Cov["samples"] = m.Samp
 			r.Cov["per_family"] = m.Counts
 			r.Cov["outcomes"] = m.Outc
@@ -381,8 +382,75 @@ func c01unsupported(c *Ctx, b []byte, note string) {
 	}
 }
 
+// c01sequences: a decoded request must still carry what its client sent after further requests have been
+// decoded (by the same goroutine, as a connection's read loop does): every ordered pair, and every ordered
+// triple of searches, over a set of requests whose list-valued fields differ in length and content.
+func c01sequences(c *Ctx) {
+	mkCtl := func(k string) []codec.Control {
+		return []codec.Control{{Kind: "string", OID: "1.2.3." + k, Crit: true, Value: "v" + k, Expire: -1, Grace: -1, Err: -1}}
+	}
+	set := []*codec.Req{
+		{Op: "search", MsgID: 2, DN: "dc=a", Scope: 2, Filter: "(cn=x)", Attrs: []string{"cn", "mail", "uid"}},
+		{Op: "search", MsgID: 3, DN: "dc=b", Scope: 1, Filter: "(cn=x)", Attrs: []string{"objectClass", "memberOf"}},
+		{Op: "search", MsgID: 4, DN: "dc=c", Scope: 0, Filter: "(cn=x)", Attrs: []string{"sn"}, Controls: mkCtl("1")},
+		{Op: "search", MsgID: 5, DN: "dc=d", Scope: 2, Filter: "(cn=x)", Attrs: []string{"a", "b", "c", "d", "e"}},
+		{Op: "modify", MsgID: 6, DN: "cn=a", Changes: []codec.Change{{Op: 2, Type: "mail", Vals: []string{"m1", "m2"}}, {Op: 1, Type: "description"}}},
+		{Op: "modify", MsgID: 7, DN: "cn=b", Changes: []codec.Change{{Op: 0, Type: "sn", Vals: []string{"s"}}}, Controls: mkCtl("2")},
+		{Op: "add", MsgID: 8, DN: "cn=c", Attrs2: []codec.Attr{{Type: "cn", Vals: []string{"c"}}, {Type: "mail", Vals: []string{"x", "y"}}}},
+		{Op: "add", MsgID: 9, DN: "cn=d", Attrs2: []codec.Attr{{Type: "objectClass", Vals: []string{"top", "person", "inetOrgPerson"}}}},
+		{Op: "bind", MsgID: 10, Version: 3, DN: "cn=e", Password: "pw-e", Controls: mkCtl("3")},
+		{Op: "bind", MsgID: 11, Version: 3, DN: "cn=f", Password: "another"},
+		{Op: "delete", MsgID: 12, DN: "cn=g", Controls: mkCtl("4")},
+		{Op: "extended", MsgID: 13, Name: codec.OIDWhoAmI},
+	}
+	for _, r := range set {
+		prepFilter(r)
+	}
+	run := func(seq []*codec.Req) {
+		if !c.Mine() {
+			return
+		}
+		c.Count("sequences", 1)
+		var got []*gldap.Request
+		for _, r := range seq {
+			c.Count("decodes", 1)
+			var req *gldap.Request
+			var err error
+			if k := try(func() { req, err = decode(r.Bytes(), 1, false) }); k != "" || err != nil || req == nil {
+				return // reported by the single-request checks
+			}
+			got = append(got, req)
+		}
+		for i, r := range seq {
+			if f, d := c01diff(r, got[i]); f != "" {
+				var ops []string
+				for _, q := range seq {
+					ops = append(ops, q.Op)
+				}
+				c.Outcome("sequence " + strings.Join(ops, ",") + " :differs")
+				c.Report(fmt.Sprintf("%s of an already decoded request differs from what its client sent once later requests have been decoded", f), fmt.Sprintf("sequence %v, request #%d: %s", ops, i+1, d), c01rep{Req: r, Note: "sequence " + strings.Join(ops, ",")})
+				return
+			}
+		}
+		c.Outcome("sequence of " + fmt.Sprint(len(seq)) + " :equal")
+	}
+	for _, a := range set {
+		for _, b := range set {
+			run([]*codec.Req{a, b})
+		}
+	}
+	for _, a := range set[:4] {
+		for _, b := range set[:4] {
+			for _, d := range set[:4] {
+				run([]*codec.Req{a, b, d})
+			}
+		}
+	}
+}
+
 func c01run(c *Ctx) {
 	initFilters()
+	c01sequences(c)
 	if c.Shard == 0 {
 		c.Count("filters_in_alphabet", int64(len(c01filters)))
 		c.Count("filters_excluded_not_roundtripping_in_go_ldap", int64(len(filtersExcluded)))
